@@ -140,6 +140,10 @@ def parse_embedded_scalar(scalar, version=LATEST_VER):
     elif scalar == MARKER_STR:
         return MARKER
     elif scalar == NA_STR:
+        # We support this only in version 3.0 and up.
+        if Version.nearest(version) < VER_3_0:
+            raise ValueError('NA is not supported in Haystack version %s' \
+                             % version)
         return NA
     elif (scalar == REMOVE2_STR) or (scalar == REMOVE3_STR):
         # Strictly speaking: x: is a HS 2.0 Remove, and -: is a 3.0 Remove
